@@ -36,12 +36,9 @@ Definition dispatch (f : Z) (x : sx) : sx :=
   | 1200 => x_close_to x | 1201 => x_diag_equiv x | 1202 => x_decomp x
   | 1000 => ConnectorX.x_conn_run x | 1001 => ConnectorX.x_ps_eval_all x | 1002 => ConnectorX.x_gen_perm x
   (* C20: catalog gates in their towers, parametrised gates, controlled-rotation block, logical action on a dyadic grid *)
-  | 2000 => x_cat_gate x | 2001 => x_logical_zi x | 2002 => x_param_gate x | 2003 => x_crot x
   (* 1300-1304: C13, the code as it is now; 1310-1313: /repo before the fix commits e38f1486, 53c82d36, 19d38de0 (historical) *)
   | 1310 => x_pol_unitary_g false x | 1311 => x_pol_convert_g false x | 1312 => x_pol_probs_g false x | 1313 => x_pol_spec_g false x
   | 2000 => x_cat_gate x | 2001 => x_logical_zi x | 2002 => x_param_gate x | 2003 => x_crot x | 2004 => x_logical_passes x
-  (* 1300-1304: C13, the code as it is; 1310-1313: with the repairs proposed in known_findings.json *)
-  | 1310 => x_pol_unitary_g true x | 1311 => x_pol_convert_g true x | 1312 => x_pol_probs_g true x | 1313 => x_pol_spec_g true x
   | 1300 => x_pol_unitary x | 1301 => x_pol_convert x | 1302 => x_pol_probs x | 1303 => x_pol_spec x | 1304 => x_labels x
   | 600 => x_get_probs x | 601 => x_one_photon x | 602 => x_prob_dist x | 603 => x_generate x | 604 => x_prob_table x
   | 605 => x_from_noise x | 606 => x_generate_filtered x | 607 => x_event_law x
